@@ -40,16 +40,24 @@ theorem circAnc_iff (defs : String → Option Schema) :
       simp only [Bool.and_eq_true, beq_iff_eq, List.isEmpty_iff] at h0
       intro h
       cases h with
+      | alias h1 _ => exact h1 h0
       | hit h1 _ _ => exact h1 h0.1
       | down h1 _ _ _ _ => exact h1 h0
     · simp only [h0, Bool.false_eq_true, ↓reduceIte]
       have h0' : ¬ (sch.base.ref = "" ∧ sch.allOf = []) := by
         simpa [Bool.and_eq_true, List.isEmpty_iff] using h0
+      cases hal : aliasLoop defs 64 sch [] with
+      | some r =>
+        simp only [ne_eq, List.cons_ne_self, not_false_eq_true, true_iff, reduceCtorEq]
+        exact Revisits.alias h0' hal
+      | none =>
+      simp only
       cases hc : chase defs 64 sch with
       | none =>
         simp only [ne_eq, not_true_eq_false, false_iff]
         intro h
         cases h with
+        | alias _ h2 => rw [hal] at h2; cases h2
         | hit _ h2 _ => rw [hc] at h2; cases h2
         | down _ h2 _ _ _ => rw [hc] at h2; cases h2
       | some schc =>
@@ -65,6 +73,7 @@ theorem circAnc_iff (defs : String → Option Schema) :
             exact Revisits.down h0' hc (fun h => h.1 hr) hcm (by simpa [hr] using this)
           · intro h
             cases h with
+            | alias _ h2 => rw [hal] at h2; cases h2
             | hit h1 _ _ => exact absurd hr h1
             | down _ h2 _ h4 h5 =>
               rw [hc] at h2; cases h2
@@ -83,6 +92,7 @@ theorem circAnc_iff (defs : String → Option Schema) :
               exact Revisits.down h0' hc (fun h => hp' h.2) hcm (by simpa [hr] using this)
             · intro h
               cases h with
+              | alias _ h2 => rw [hal] at h2; cases h2
               | hit _ _ h3 => exact absurd h3 hp'
               | down _ h2 _ h4 h5 =>
                 rw [hc] at h2; cases h2
